@@ -86,6 +86,10 @@ fn explore_case(docs: &[String], bound: usize, max_exec: u64) -> CaseResult {
 
 /// run the hooks-off helper on all cases; returns per case (number of distinct observations, hash of the first, observations)
 fn free_running(ctx: &Ctx, cases: &[Vec<String>], fresh: usize) -> Result<Vec<(usize, String, Vec<String>)>, String> {
+    free_running_opt(ctx, cases, fresh, false)
+}
+
+fn free_running_opt(ctx: &Ctx, cases: &[Vec<String>], fresh: usize, noise_first: bool) -> Result<Vec<(usize, String, Vec<String>)>, String> {
     let bin = format!("{}/target/plain/release/xsgv", ctx.verif_dir);
     if !std::path::Path::new(&bin).exists() {
         return Err(format!("{} is missing (the check script builds it)", bin));
@@ -99,7 +103,7 @@ fn free_running(ctx: &Ctx, cases: &[Vec<String>], fresh: usize) -> Result<Vec<(u
                 let bin = bin.clone();
                 s.spawn(move || -> Result<Vec<(usize, String, Vec<String>)>, String> {
                     let mut child = std::process::Command::new(&bin)
-                        .args(["repeat", "3", &fresh.to_string()])
+                        .args(["repeat", "3", &fresh.to_string(), if noise_first { "noise-first" } else { "plain" }])
                         .stdin(std::process::Stdio::piped())
                         .stdout(std::process::Stdio::piped())
                         .stderr(std::process::Stdio::null())
@@ -366,7 +370,7 @@ pub fn run(ctx: &Ctx) {
     // 2. repetition on the shipped library (hooks off), two processes per chunk
     let fresh = ctx.tier.pick(8, 32);
     let mut validated = 0u64;
-    match (free_running(ctx, &cases, fresh), free_running(ctx, &cases, 1)) {
+    match (free_running(ctx, &cases, fresh), free_running_opt(ctx, &cases, 1, true)) {
         (Ok(a), Ok(b)) => {
             for (i, ((na, ha, outs), (nb, hb, _))) in a.iter().zip(b.iter()).enumerate() {
                 validated += 1;
